@@ -126,7 +126,26 @@ def gen_session(rng, quick):
             nsel = k
     if rng.random() < 0.05:
         calls.insert(0, dict(kind="warm", data=0, ff="keep", nts=2, expect="ValueError"))
-    return dict(data=data, calls=calls)
+    # half of the objects are constructed with POSITIONAL arguments taken from the first call
+    positional = calls[0]["kind"] == "cold" and calls[0]["ff"] not in ("keep", "raw") and rng.random() < 0.5
+    return dict(data=data, calls=calls, positional=positional)
+
+
+def gen_large_session(rng):
+    """the history "cold fit to a small count, warm start past 256 selections" (a per-sample label
+    array sized for the cold count overflows there); 300-400 points on a line or in the plane"""
+    n = rng.randint(325, 400)
+    if rng.random() < 0.5:
+        X = [[x, 0] for x in rng.sample(range(-3000, 3000), n)]
+        fam = "line"
+    else:
+        X = [[rng.randint(-80, 80), rng.randint(-80, 80)] for _ in range(n)]
+        fam = "plane"
+    k1, k2 = rng.randint(100, 255), rng.randint(257, 320)
+    ff = rng.choice([[1, 1], [1, 2], [1, 128]])
+    calls = [dict(kind="cold", data=0, ff=ff, nts=k1, init=rng.randrange(n), expect="ok", clock=[False] * 7, ntrial=4),
+             dict(kind="warm", data=0, ff="keep", nts=k2, expect="ok")]
+    return dict(data=[dict(X=X, family=fam, sp=0)], calls=calls, positional=rng.random() < 0.5, large=True)
 
 
 class FakeClock:
@@ -169,6 +188,30 @@ def fit_with_clock(sel, X, warm, outs, ntrial):
     return clock
 
 
+DOCUMENTED_SIGNATURE = [("n_trial_calculation", 4), ("full_fraction", None), ("initialize", 0)]
+
+
+def make_voronoi(ntrial, ff, init, positional, **kw):
+    """VoronoiFPS with the three documented leading parameters given by keyword or POSITIONALLY in
+    the documented order of the pinned signature (n_trial_calculation, full_fraction, initialize)"""
+    from skmatter.sample_selection import VoronoiFPS
+    if positional:
+        return VoronoiFPS(ntrial, ff, init, **kw)
+    return VoronoiFPS(n_trial_calculation=ntrial, full_fraction=ff, initialize=init, **kw)
+
+
+def signature_problem():
+    """order / defaults of VoronoiFPS.__init__'s positional parameters vs the documented ones"""
+    import inspect
+    from skmatter.sample_selection import VoronoiFPS
+    ps = [p for p in list(inspect.signature(VoronoiFPS.__init__).parameters.values())[1:]
+          if p.kind in (p.POSITIONAL_ONLY, p.POSITIONAL_OR_KEYWORD)]
+    got = [(p.name, None if p.default is inspect.Parameter.empty else p.default) for p in ps]
+    if got != DOCUMENTED_SIGNATURE:
+        return "VoronoiFPS.__init__ positional parameters are %r, documented (pinned) %r" % (got, DOCUMENTED_SIGNATURE)
+    return None
+
+
 def _nts_py(nts):
     return None if nts == "none" else nts
 
@@ -179,19 +222,26 @@ def _ints(a, unscale, what):
 
 def run_session(case):
     from skmatter.sample_selection import VoronoiFPS, FPS
-    sel = VoronoiFPS()
+    positional = bool(case.get("positional"))
+    if positional:
+        c0 = case["calls"][0]
+        sel = make_voronoi(c0.get("ntrial", 4), None if c0["ff"] is None else c0["ff"][0] / c0["ff"][1], c0["init"], True)
+    else:
+        sel = VoronoiFPS()
     out = []
-    for c in case["calls"]:
+    for ci, c in enumerate(case["calls"]):
         ds = case["data"][c["data"]]
         sp = ds["sp"]
         X = np.array(ds["X"], dtype=float) * (2.0 ** sp)
         u2, u1 = 2.0 ** (-2 * sp), 2.0 ** (-sp)
-        if c["ff"] == "raw":
+        if positional and ci == 0:
+            pass          # the constructor received them positionally
+        elif c["ff"] == "raw":
             sel.full_fraction = c["badff"]
         elif c["ff"] != "keep":
             sel.full_fraction = None if c["ff"] is None else c["ff"][0] / c["ff"][1]
         sel.n_to_select = _nts_py(c["nts"])
-        if c["kind"] == "cold":
+        if c["kind"] == "cold" and not (positional and ci == 0):
             sel.initialize = c["init"]
             sel.n_trial_calculation = c.get("ntrial", 4)
         rec = {}
@@ -203,10 +253,17 @@ def run_session(case):
             rec["error"] = S.err_class(e)
             rec["error_msg"] = str(e)[:160]
         ffr = sel.full_fraction
-        rec["ff"] = None if ffr is None else [Fraction(float(ffr)).numerator, Fraction(float(ffr)).denominator]
+        try:
+            rec["ff"] = None if ffr is None else [Fraction(float(ffr)).numerator, Fraction(float(ffr)).denominator]
+        except (TypeError, ValueError):
+            rec["ff"], rec["ff_raw"] = None, repr(ffr)      # not a number (e.g. shifted constructor arguments)
         if "error" not in rec:
             k = int(sel.n_selected_)
             rec.update(k=k, sel=[int(i) for i in sel.selected_idx_])
+            vd = np.asarray(sel.vlocation_of_idx).dtype
+            if vd.kind in "iu" and np.iinfo(vd).max < len(X) - 1:
+                # a cell label is a selection rank: any rank up to n - 1 must fit (warm starts keep the array)
+                rec["narrow_labels"] = "vlocation_of_idx has dtype %s, which cannot hold the rank %d" % (vd, len(X) - 1)
             try:
                 rec.update(
                     xsel=C.as_int_matrix(np.asarray(sel.X_selected_, float) * u1, "X_selected_"),
@@ -260,7 +317,7 @@ def session_coq(case, res):
             call = "VCold %s %s %d%%nat %s" % (C.zmat(X), br, i0, _nts_coq(n, c["nts"]))
         else:
             call = "VWarm %s %s %s" % (C.zmat(X), br, _nts_coq(n, c["nts"]))
-        if "error" in r or "inexact" in r:
+        if "error" in r or "inexact" in r or "narrow_labels" in r:
             obs = "None"
         else:
             obs = "Some (mk_otrace %s %s %s %s %s %s %s %s %s)" % (
@@ -281,19 +338,24 @@ def calib_coq(case, res):
 
 # ----------------------------------------------------------------------------- oracle
 def fps_run_problem(X, sel, table, label):
-    """the ordered run `sel` on integer rows X must be a plain-FPS run, `table` its true table"""
-    n = len(X)
-    D = [[sum((a - b) ** 2 for a, b in zip(X[i], X[j])) for j in range(n)] for i in range(n)]
+    """the ordered run `sel` on integer rows X must be a plain-FPS run, `table` its true table
+    (exact: int64 arithmetic on the integer lattice, running minimum)"""
+    A = np.array(X, dtype=np.int64)
+    n = len(A)
+    sel = [int(i) for i in sel]
     if len(set(sel)) != len(sel):
-        return "%s: repeated selection %s" % (label, sel)
+        return "%s: repeated selection %s" % (label, sel[:40])
     if any(not 0 <= i < n for i in sel):
-        return "%s: selection out of range %s" % (label, sel)
+        return "%s: selection out of range %s" % (label, sel[:40])
+    mind = ((A - A[sel[0]]) ** 2).sum(axis=1)
     for t in range(1, len(sel)):
-        mind = [min(D[j][i] for i in sel[:t]) for j in range(n)]
-        if mind[sel[t]] != max(mind):
+        j = sel[t]
+        best = int(mind.max())
+        if int(mind[j]) != best:
             return "%s: step %d picked %d at squared distance %s but a farthest candidate is at %s" % (
-                label, t, sel[t], mind[sel[t]], max(mind))
-    true_tab = [min(D[j][i] for i in sel) for j in range(n)]
+                label, t, j, int(mind[j]), best)
+        mind = np.minimum(mind, ((A - A[j]) ** 2).sum(axis=1))
+    true_tab = [int(x) for x in mind]
     if list(table) != true_tab:
         bad = [j for j in range(n) if table[j] != true_tab[j]]
         return "%s: distance table differs from the true minimum distances at candidates %s" % (label, bad[:6])
@@ -379,15 +441,15 @@ def gen_guard(rng):
     ff = rng.choice([None, None, 0.5, 1.0, 0.0078125, 1]) if ok() else rng.choice([0.0, -0.5, 1.5, 2, "0.5", [0.5]])
     nt = rng.choice([4, 1, 2]) if ok() else rng.choice([0, -2, 2.5, "4"])
     init = rng.choice([0, n - 1, rng.randrange(n), "random"]) if ok() else rng.choice([n, n + 3, "first", 0.5, None])
-    return dict(X=X, nts=nts, ff=ff, nt=nt, init=init)
+    return dict(X=X, nts=nts, ff=ff, nt=nt, init=init, positional=rng.random() < 0.5)
 
 
 def run_guard(case):
     from skmatter.sample_selection import VoronoiFPS
     X = np.array(case["X"], dtype=float)
     try:
-        sel = VoronoiFPS(n_to_select=_nts_py(case["nts"]), full_fraction=case["ff"],
-                         n_trial_calculation=case["nt"], initialize=case["init"])
+        sel = make_voronoi(case["nt"], case["ff"], case["init"], bool(case.get("positional")),
+                           n_to_select=_nts_py(case["nts"]))
         fit_with_clock(sel, X, False, [True, False, True, False, False, True, False],
                        case["nt"] if isinstance(case["nt"], int) else 1)
     except Exception as e:  # noqa
@@ -477,14 +539,14 @@ def gen_float_case(rng, quick):
     ff = rng.choice([None, 1.0, 0.5, 0.25, 1 / 128])
     warm_from = rng.choice([None, None, rng.randint(1, k)])
     return dict(X=X, family=fam, prefit=pre, k=k, ff=ff, init=rng.choice([0, rng.randrange(n), "random"]),
-                warm_from=warm_from, clock=[rng.random() < 0.5 for _ in range(7)])
+                warm_from=warm_from, clock=[rng.random() < 0.5 for _ in range(7)], positional=rng.random() < 0.5)
 
 
 def run_float(case):
     from skmatter.sample_selection import VoronoiFPS, FPS
     X = np.array(case["X"], dtype=float)
-    sel = VoronoiFPS(initialize=case["init"], full_fraction=case["ff"])
     try:
+        sel = make_voronoi(4, case["ff"], case["init"], bool(case.get("positional")))
         if case["prefit"] is not None:
             sel.n_to_select = case["prefit"]["k"]
             fit_with_clock(sel, np.array(case["prefit"]["X"], dtype=float), False, case["clock"], 4)
@@ -536,7 +598,7 @@ def gen_thr_case(rng, quick):
                                (2 * dmax, 1), (1, 4)])
     ff = rng.choice([[1, 1], [1, 1], [1, 2], [1, 4], [1, 128]])
     return dict(X=X, family=fam, sp=sp, thr_type=kind, num=num, den=den, ff=ff, init=rng.randrange(n),
-                k=rng.randint(2, n))
+                k=rng.randint(2, n), positional=rng.random() < 0.5)
 
 
 def _watch_order(sel):
@@ -562,7 +624,9 @@ def run_thr(case):
     kw = dict(n_to_select=case["k"], initialize=case["init"], score_threshold=thr, score_threshold_type=case["thr_type"])
     rec = {}
     try:
-        sel = VoronoiFPS(full_fraction=case["ff"][0] / case["ff"][1], **kw)
+        vkw = dict(kw)
+        del vkw["initialize"]
+        sel = make_voronoi(4, case["ff"][0] / case["ff"][1], case["init"], bool(case.get("positional")), **vkw)
         order = _watch_order(sel)
         with warnings.catch_warnings(record=True) as w:
             warnings.simplefilter("always")
